@@ -245,6 +245,9 @@ Holds(e, name) ==
          \A k \in DOMAIN o.constmeans : C11_Const(g, cf.const, FaceFieldOf(g, o.constmeans[k]))
     [] name = "C11_LinearExact" ->
          C11_LinearExact(g, cf.lin_alpha, cf.lin_beta, FaceFieldOf(g, o.linmean_linear))
+    [] name = "C06_SourceSolve" ->
+         \A P \in Interior(g) :
+            RMul(IntFieldOf(g, o.r_source)[P], RAdd(IntFieldOf(g, cf.beta)[P], ROne)) = IntFieldOf(g, cf.gamma)[P]
     [] name = "C06_Steady" ->
          \A k \in DOMAIN o.steady : \A c \in Interior(g) : IntFieldOf(g, o.steady[k])[c] = cf.const
     [] name = "C01_ClosedStepCentral" ->
